@@ -71,6 +71,9 @@ LookAlikes == {
   Struct("a" :> Struct("a" :> TInt @@ "b" :> TInt) @@ "b" :> Struct(<<>>)),
   Multi({TInt, TFloat, TString}), Multi({TBool, TInt, TFloat, TString}),
   Fn(<<>>, Multi({TInt, TFloat, TString})), MutT(Multi({TInt, TFloat, TString})),
+  \* wide unions (five and six alternatives; a printer that abbreviates long lists loses members), also nested
+  Multi({TBool, TInt, TFloat, TString, TVoid}), Multi({TBool, TInt, TFloat, TString, TVoid, Arr(TInt)}),
+  Arr(Multi({TBool, TInt, TFloat, TString, MutT(TInt)})),
   \* the type filter's own context
   Fn(<<>>, Tup(<<TBool, IntFloat>>)), Fn(<<>>, Tup(<<TBool, Fn(<<>>, IntFloat)>>))
 }
